@@ -29,6 +29,8 @@ def main():
     tname = re.match(r"func (Test\w+)", demo[0]).group(1)
     tags = meta.get("demo_tags") or ""
     tagargs = ["-tags", tags] if tags else []
+    if meta.get("demo_race"):
+        tagargs.append("-race")
     before = set(os.listdir(os.path.join(V, "replays"))) if os.path.isdir(os.path.join(V, "replays")) else set()
     wt = f"/tmp/seedverify_{name}"
     sh(["git", "-C", "/repo", "worktree", "remove", "--force", wt])
